@@ -43,6 +43,9 @@ pub enum Fault {
     /// C06: learn the total cost T with a generous lock, then probe locks of exactly T and
     /// T -/+ a few attos (no commit), then execute normally
     FeeProbe,
+    /// C49: for every limit kind in the bit mask locate the smallest limit value under which this
+    /// transaction still executes identically and check the threshold (no commit), then execute normally
+    LimitProbe(u16),
 }
 
 #[derive(Clone, Debug, Serialize, Deserialize, PartialEq)]
@@ -94,6 +97,10 @@ pub enum Body {
     /// Two overlapping fungible proofs on the actor's vault, then a withdrawal of `amount`.
     FProofs { res: u8, p1: String, p2: String, amount: String },
     SetMetadata { res: u8, key: u8, value: u8 },
+    /// metadata entry with a key of `key_len` characters and a string value of `value_len` characters
+    BigMetadata { res: u8, key_len: u16, value_len: u32 },
+    /// `n` separate transfers in one manifest (many events, many invocations)
+    MultiTransfer { res: u8, to: u8, n: u8 },
     LockMetadata { res: u8, key: u8 },
     /// role-assignment module: set the owner rule to "require signature of party `to`"
     SetOwnerRole { res: u8, to: u8 },
@@ -139,6 +146,8 @@ impl Body {
             Body::NfProofs { .. } => "NfProofs",
             Body::FProofs { .. } => "FProofs",
             Body::SetMetadata { .. } => "SetMetadata",
+            Body::BigMetadata { .. } => "BigMetadata",
+            Body::MultiTransfer { .. } => "MultiTransfer",
             Body::LockMetadata { .. } => "LockMetadata",
             Body::SetOwnerRole { .. } => "SetOwnerRole",
             Body::LockOwnerRole { .. } => "LockOwnerRole",
@@ -598,6 +607,22 @@ pub fn build(step: &LStep, view: &View, node: &Node) -> Built {
             }
             b.set_metadata(r.addr, format!("k{}", key), MetadataValue::U64(*value as u64))
         }
+        Body::BigMetadata { res, key_len, value_len } => {
+            let Some(r) = fres(res) else { return Built::Skip };
+            if r.owner.is_none() {
+                return Built::Skip;
+            }
+            b.set_metadata(r.addr, "k".repeat((*key_len).max(1) as usize), MetadataValue::String("v".repeat(*value_len as usize)))
+        }
+        Body::MultiTransfer { res, to, n } => {
+            let (Some(r), Some(to)) = (fres(res), party(to)) else { return Built::Skip };
+            let unit = Decimal::from_attos(I192::from(10u64.pow(18 - r.divisibility.min(18) as u32)));
+            let mut bb = b;
+            for _ in 0..(*n).max(1) {
+                bb = bb.withdraw_from_account(acct, r.addr, unit).try_deposit_entire_worktop_or_abort(to.account, None);
+            }
+            bb
+        }
         Body::LockMetadata { res, key } => {
             let Some(r) = fres(res) else { return Built::Skip };
             if r.owner.is_none() {
@@ -782,6 +807,9 @@ pub struct Weights {
     /// calls into / administration of the pre-published royalties package
     #[serde(default)]
     pub royalties: u32,
+    /// C49: long metadata keys / values and many transfers per manifest
+    #[serde(default)]
+    pub big_payloads: bool,
 }
 
 pub const ROYALTY_METHODS: [&str; 3] = ["method_with_no_package_royalty", "method_with_xrd_package_royalty", "method_with_usd_package_royalty"];
@@ -866,6 +894,7 @@ pub fn gen_step(rng: &mut Rng, view: &View, node: &Node, w: &Weights, fault_perm
     let body = match class {
         0 => match rng.below(10) {
             0 => Body::Fund,
+            1..=2 if w.big_payloads => Body::MultiTransfer { res: fr, to: other, n: *rng.pick(&[1u8, 2, 5, 20, 60, 90]) },
             1..=7 => Body::Transfer { res: fr, to: other, amount: amount_of(rng, bal_of(actor, fr), div) },
             _ => {
                 let r = rng.below(nn) as u8;
@@ -1019,7 +1048,12 @@ pub fn gen_step(rng: &mut Rng, view: &View, node: &Node, w: &Weights, fault_perm
                     actor = view.fres[r as usize].owner.unwrap();
                 }
             }
-            match rng.below(8) {
+            match rng.below(if w.big_payloads { 12 } else { 8 }) {
+                8..=11 => Body::BigMetadata {
+                    res: r,
+                    key_len: *rng.pick(&[1u16, 10, 100, 101, 500, 1000, 2000]),
+                    value_len: *rng.pick(&[0u32, 1, 100, 4000, 4096, 5000, 100_000]),
+                },
                 0..=3 => Body::SetMetadata { res: r, key: rng.below(3) as u8, value: rng.below(5) as u8 },
                 4..=5 => Body::LockMetadata { res: r, key: rng.below(3) as u8 },
                 6 => Body::SetOwnerRole { res: r, to: rng.below(np) as u8 },
